@@ -31,6 +31,7 @@ type Env struct {
 	pkg         *types.Package
 	bound       map[string]SVal
 	selfAlloc0  string // $alloc at entry of the contract's function (for fresh())
+	noLocks     bool   // lock predicates are evaluated for a goroutine that holds no lock (opt anytime callbacks)
 	noOldSwitch bool
 }
 
@@ -707,6 +708,9 @@ func (e *Env) evalCall(x *Expr) SVal {
 		return SVal{S: e.inState(func() string { return app("select", t.get(dc), vf.P.Ref) }), Sort: "Int"}
 	case "held", "rheld":
 		// held(x.mu): write-held; rheld: read- or write-held
+		if e.noLocks {
+			return SVal{S: "false", Sort: "Bool"} // evaluated for a goroutine that holds no lock at all
+		}
 		lc, ref := e.lockComp(x.Args[0])
 		if t.inRequires {
 			t.heldAtEntry[lc] = append(t.heldAtEntry[lc], ref)
@@ -717,6 +721,9 @@ func (e *Env) evalCall(x *Expr) SVal {
 		}
 		return SVal{S: app(">=", s, "1"), Sort: "Bool"}
 	case "unlocked":
+		if e.noLocks {
+			return SVal{S: "true", Sort: "Bool"}
+		}
 		lc, ref := e.lockComp(x.Args[0])
 		if t.collectUnlocked != nil {
 			*t.collectUnlocked = append(*t.collectUnlocked, lc)
